@@ -6,7 +6,7 @@ failure-free runs) extreme legal PRNG draws.  Post-run oracle: population ledger
 rebuilt from Problem.populations() and the objective's call log, textbook
 constrained dominance; in-run oracle on every eps-MOEA acceptance step.
 """
-from .. import core, monitors, refmodels as R, runfam, world as W
+from .. import core, kernel, monitors, refmodels as R, runfam, world as W
 
 PID = 'C09'
 LEVEL = 'exploration'
@@ -29,7 +29,7 @@ COMPONENTS = {
     'stub': ['joblib (SimParallel)', 'user objective with failure plan (harness world)', 'PRNG seam (seeded + extreme legal draws)',
              'time.time', 'uuid1'],
 }
-PROBES_EXPECTED = ['nsga2', 'epsmoea', 'omopso', 'smpso', 'faults', 'five_in_a_row', 'prng_extreme', 'elitism_pairs',
+PROBES_EXPECTED = ['second_run_after_a_run_that_died', 'nsga2', 'epsmoea', 'omopso', 'smpso', 'faults', 'five_in_a_row', 'prng_extreme', 'elitism_pairs',
                    'single_objective_best', 'acceptance_dominating', 'acceptance_rejected', 'acceptance_incomparable']
 
 ALGOS = ('nsga2', 'epsmoea', 'omopso', 'smpso')
@@ -44,12 +44,30 @@ def run_one(D, opts=None):
         info.ctx.sample['p_ext'] = 0.0
     ctx, w = info.ctx, info.w
     ctx.probe(info.kind)
+    earlier = []
+    if D.dec('cfg', 'died_first', 6) == 1:
+        # the solver goes down in the middle of a first run (five time-outs in a row end it with an exception); the user
+        # repairs it and runs the SAME algorithm object again: that run is a complete run with its own budget and generations
+        w.kill_from = 1 + D.dec('cfg', 'kill_at', info.N * (info.G + 1))
+        try:
+            with W.quiet():
+                info.alg.run()
+        except (kernel.Deadlock, kernel.StepCap, kernel.Livelock):
+            raise
+        except Exception:
+            ctx.probe('second_run_after_a_run_that_died')
+        w.kill_from = None
+        earlier = list(w.problem.individuals)
+        del w.calls[:]
+        w.attempts.clear()
+        w.ncalls_ok = 0
+        del w.problem.failed[:]
     if info.kind == 'epsmoea':
         monitors.set_hooks(pop_acceptance=_acceptance_hook(ctx))
     runfam.execute(info)
     site = {'nsga2': 'NSGAII.run', 'epsmoea': 'EpsMOEA.run', 'omopso': 'OMOPSO.run', 'smpso': 'SMPSO.run'}[info.kind]
     if not runfam.judge_abort(info, site):
-        _ledger(info, site)
+        _ledger(info, site, earlier)
     return runfam.finish(info)
 
 
@@ -87,11 +105,16 @@ def _acceptance_hook(ctx):
     return hook
 
 
-def _ledger(info, site):
+def _ledger(info, site, earlier=()):
     ctx, w = info.ctx, info.w
     N, G, kind = info.N, info.G, info.kind
     ctx.check()
     pops = w.problem.populations()
+    if earlier:
+        # what an earlier (dead) run on the same problem object recorded is not part of this run
+        old = {id(i) for i in earlier}
+        pops = {t: [i for i in lst if id(i) not in old] for t, lst in pops.items()}
+        pops = {t: lst for t, lst in pops.items() if lst}
     ok_calls = w.ncalls_ok
     if kind == 'nsga2':
         exp_tags = list(range(1, G + 1))
